@@ -14,7 +14,7 @@ from ..common import MachineryError, NCPU
 from .. import build, tlc, run, idb, cpplib
 
 BATCH = 150
-QUICK = ["ExportDesc_sig", "ExportDesc_roles", "ExportDesc_bases", "ExportDesc_nest", "ExportDesc_tops"]
+QUICK = ["ExportDesc_sig", "ExportDesc_roles", "ExportDesc_ops", "ExportDesc_bases", "ExportDesc_nest", "ExportDesc_tops"]
 THOROUGH = [c + "_t" for c in QUICK]
 GXX = ["g++", "-std=c++17", "-fsyntax-only", "-w", "-D__published=public", "-D__begin_publish=", "-D__end_publish=",
        "-I.", "-Isub", "-Iinc", "-Isys"]
@@ -44,16 +44,22 @@ def compare_case(cs, db):
         if e != o:
             bad.append((what, e, o))
 
+    # function identity: the members the model groups under one identity are ONE function of the database
+    groups = {}
     for f in d["fns"]:
-        c, i = f["c"], f["i"]
-        m = cs.cls[c - 1]["members"][i - 1]
+        fid = f.get("fid") or dict(name="", unary=f["flags"]["unary"], anon=f["i"])
+        groups.setdefault((f["c"], fid["name"], bool(fid["unary"]), fid["anon"]), []).append(f)
+    for (c, _n, unary, _a), fs in sorted(groups.items(), key=lambda x: str(x[0])):
+        f0 = fs[0]
         C = cs.cscoped(c)
-        isctor = f["flags"]["ctor"]
-        sc = C + "::" + (cs.cname(c) if isctor else cs.dbname(c, i))
-        fns = db.funcs.get(sc, [])
-        tag = "%s (%s)" % (sc, cs.member_text(c, i))
+        isctor = f0["flags"]["ctor"]
+        sc = C + "::" + (cs.cname(c) if isctor else cs.dbname(c, f0["i"]))
+        tag = "%s (%s)" % (sc, " ".join(cs.member_text(c, f["i"]) for f in fs))
+        fns = [x for x in db.funcs.get(sc, []) if bool(x["is_unary_op"]) == unary]
         if len(fns) != 1:
-            bad.append(("function records for " + tag, 1, len(fns)))
+            bad.append(("function records (unary=%s) for %s" % (unary, tag), 1,
+                        [(x["scoped_name"], bool(x["is_unary_op"]), sorted(wrapper_key(db, w) for w in db.wrappers(x)))
+                         for x in db.funcs.get(sc, [])]))
             continue
         fn = fns[0]
         ws = db.wrappers(fn)
@@ -61,19 +67,24 @@ def compare_case(cs, db):
             ws = [w for w in ws if not w["is_copy_constructor"]]       # the implicit copy constructor shares the name
         chk("class of " + tag, C, db.tyname(fn["class"]))
         chk("roles of " + tag,
-            dict(method=True, virtual=f["flags"]["virtual"], constructor=isctor, destructor=False,
-                 unary_op=f["flags"]["unary"], operator_typecast=f["flags"]["typecast"]),
+            dict(method=True, virtual=any(f["flags"]["virtual"] for f in fs), constructor=isctor, destructor=False,
+                 unary_op=unary, operator_typecast=f0["flags"]["typecast"]),
             dict(method=bool(fn["is_method"]), virtual=bool(fn["is_virtual"]), constructor=bool(fn["is_constructor"]),
                  destructor=bool(fn["is_destructor"]), unary_op=bool(fn["is_unary_op"]),
                  operator_typecast=bool(fn["is_operator_typecast"])))
         chk("wrapper variants (ordered parameters: name, type, this, optional) of " + tag,
-            sorted(variant_key(cs, v) for v in f["variants"]), sorted(wrapper_key(db, w) for w in ws))
-        r = f["ret"]
-        for w in ws:
-            chk("return of " + tag, (bool(r["has"]), cs.dbtype(r["t"]), bool(r["owns"])),
-                (bool(w["has_return_value"]), db.tyname(w["return_type"]), bool(w["caller_manages_return_value"])))
-            chk("wrapper comment of " + tag, cs.doc(f["cm"], cs.mname(c, i)), w["comment"] if w["has_comment"] else "")
-        chk("comment of " + tag, cs.doc(f["cm"], cs.mname(c, i)), fn["comment"] if fn["has_comment"] else "")
+            sorted(variant_key(cs, v) for f in fs for v in f["variants"]), sorted(wrapper_key(db, w) for w in ws))
+        for f in fs:
+            r = f["ret"]
+            mine = {variant_key(cs, v) for v in f["variants"]}
+            for w in ws:
+                if wrapper_key(db, w) not in mine:
+                    continue
+                chk("return of " + tag, (bool(r["has"]), cs.dbtype(r["t"]), bool(r["owns"])),
+                    (bool(w["has_return_value"]), db.tyname(w["return_type"]), bool(w["caller_manages_return_value"])))
+                chk("wrapper comment of " + tag, cs.doc(f["cm"], cs.mname(c, f["i"])), w["comment"] if w["has_comment"] else "")
+        if len(fs) == 1:
+            chk("comment of " + tag, cs.doc(f0["cm"], cs.mname(c, f0["i"])), fn["comment"] if fn["has_comment"] else "")
     for e in d["data"]:
         c, i = e["c"], e["i"]
         C, n = cs.cscoped(c), cs.mname(c, i)
@@ -120,6 +131,9 @@ def compare_case(cs, db):
             continue
         chk("kind of " + C, cs.cls[c - 1]["key"], "class" if t["is_class"] else "struct" if t["is_struct"] else "?")
         chk("name of " + C, cs.cname(c), t["name"])
+        if "nmethods" in k:
+            chk("number of member functions / typecast operators listed by " + C, (k["nmethods"], k["ncasts"]),
+                (len(t["methods"]), len(t["casts"])))
         chk("nesting of " + C, (bool(k["nested"]), cs.cscoped(k["outer"]) if k["outer"] else None),
             (bool(t["is_nested"]), db.tyname(t["outer_class"]) if t["is_nested"] else None))
         chk("comment of " + C, cs.doc(k["cm"], cs.cname(c)), t["comment"] if t["has_comment"] else "")
